@@ -99,6 +99,9 @@ func genSpans(r *rand.Rand, messy bool) []span {
 	far := r.Intn(8) == 0
 	for i := 0; i < n; i++ {
 		z, y := int32(r.Intn(7)-3), int32(r.Intn(7)-3)
+		if messy { // few rows, so that spans really overlap, nest, touch and repeat
+			z, y = int32(r.Intn(2)-1), int32(r.Intn(2)-1)
+		}
 		if far && r.Intn(2) == 0 {
 			z, y = int32(r.Intn(3)-1)*30000, int32(r.Intn(3)-1)*20000
 		}
@@ -415,7 +418,7 @@ func roiHistory(c *drv.Ctx, w *drv.Worker, cl *dvc.Client, seed int64, idx int) 
 	var parentModel *model
 	nops := 10 + r.Intn(10)
 	branchAt := -1
-	if versioned && r.Intn(2) == 0 {
+	if versioned && r.Intn(3) > 0 {
 		branchAt = 2 + r.Intn(nops-3)
 	}
 	if err := h.checkGet(cur, m, "before any POST"); err != nil {
